@@ -26,6 +26,7 @@ import (
 	"go/token"
 	"go/types"
 	"os"
+	"strings"
 
 	"golang.org/x/tools/go/ssa"
 )
@@ -228,6 +229,18 @@ func enterCall(b cval, call *ssa.Call, res int) (cval, bool) {
 		}
 	}
 	rets := returnsOf(cal)
+	if len(rets) > 1 {
+		// the one return that reports success (the others hand back a definite error with a zero value)
+		var okRets []*ssa.Return
+		for _, r := range rets {
+			vs := returnValues(r)
+			if n := len(vs); n > 0 && isErrorType(vs[n-1].Type()) && definitelyNonNilError(vs[n-1], nil) {
+				continue
+			}
+			okRets = append(okRets, r)
+		}
+		rets = okRets
+	}
 	if len(rets) != 1 {
 		return cval{}, false
 	}
@@ -412,4 +425,43 @@ func rootParam(c cval) *ssa.Parameter {
 		}
 	}
 	return nil
+}
+
+// pairFields: for a struct type that carries a (number, hash) pair, the indices of the two members.
+func pairFields(t types.Type) (iNum, iHash int, ok bool) {
+	st, isSt := t.Underlying().(*types.Struct)
+	if !isSt {
+		return 0, 0, false
+	}
+	iNum, iHash = -1, -1
+	for i := 0; i < st.NumFields(); i++ {
+		ft := st.Field(i).Type().Underlying()
+		if b, isB := ft.(*types.Basic); isB && b.Info()&types.IsInteger != 0 && iNum < 0 {
+			iNum = i
+		}
+		if sl, isSl := ft.(*types.Slice); isSl && iHash < 0 {
+			if b, isB := sl.Elem().Underlying().(*types.Basic); isB && b.Kind() == types.Uint8 {
+				iHash = i
+			}
+		}
+	}
+	return iNum, iHash, iNum >= 0 && iHash >= 0
+}
+
+// samePairSource: num and hash are the number and the hash member of ONE decoded value.
+func samePairSource(num, hash cval) bool {
+	num, hash = unfold(num), unfold(hash)
+	r0, ch0 := fieldChain(stripNum(num.v))
+	r1, ch1 := fieldChain(stripNum(hash.v))
+	if r0 == nil || r1 == nil || len(ch0) == 0 || len(ch1) == 0 || len(num.stack) != len(hash.stack) {
+		return false
+	}
+	if !(r0 == r1 || sameVar(r0, r1)) {
+		return false
+	}
+	if !chainIs(ch0[:len(ch0)-1], ch1[:len(ch1)-1]...) {
+		return false
+	}
+	l0, l1 := strings.ToLower(ch0[len(ch0)-1].Name()), strings.ToLower(ch1[len(ch1)-1].Name())
+	return (l0 == "number" || l0 == "num") && l1 == "hash"
 }
